@@ -6,9 +6,11 @@ import (
 	"fmt"
 	"math"
 	"strconv"
+	"time"
 
 	"github.com/ozanh/ugo"
 	"github.com/ozanh/ugo/encoder"
+	ugotime "github.com/ozanh/ugo/stdlib/time"
 )
 
 // codec values: like ValueOfSexp but floats are raw bits and functions are encodable kinds
@@ -156,8 +158,25 @@ func traceOf(bc *ugo.Bytecode) string {
 }
 
 // (case id encprog <src hex> [<module src hex>...])
+// gmod: a builtin module whose values have no native encoding (gob fallback), several of one Go type
+// in one map, directly and nested
+func gmodAttrs() map[string]ugo.Object {
+	ea := &ugo.Error{Name: "ErrA", Message: "a"}
+	eb := &ugo.Error{Name: "ErrB", Message: "b"}
+	rt := &ugo.RuntimeError{Err: &ugo.Error{Name: "ErrR", Message: "r"}}
+	t1 := &ugotime.Time{Value: time.Date(2020, 2, 3, 4, 5, 6, 7, time.UTC)}
+	t2 := &ugotime.Time{Value: time.Date(2021, 3, 4, 5, 6, 7, 8, time.UTC)}
+	return map[string]ugo.Object{
+		"errA": ea, "errB": eb, "rt": rt, "t1": t1, "t2": t2, "n": ugo.Int(3),
+		"errs":  ugo.Map{"x": ea, "y": eb, "z": &ugo.Error{Name: "ErrZ", Message: "z"}},
+		"times": ugo.Array{t1, t2, t1},
+		"mixed": &ugo.SyncMap{Value: ugo.Map{"e": eb, "t": t2, "r": rt, "m": ugo.Map{"e1": ea, "e2": eb}}},
+	}
+}
+
 func runEncProg(args []*Sexp) *Sexp {
 	mm := moduleMapStd()
+	mm.AddBuiltinModule("gmod", gmodAttrs())
 	for i, a := range args[1:] {
 		mm.AddSourceModule(fmt.Sprintf("m%d", i+1), atomBytes(a))
 	}
